@@ -97,6 +97,8 @@ type zzEvent struct {
 	cl   *contract.ContractClusterLiquidated
 	cr   *contract.ContractClusterReactivated
 	fr   *contract.ContractFeeRecipientAddressUpdated
+	or   *contract.ContractOperatorRemoved
+	ve   *contract.ContractValidatorExited
 }
 
 type zzParser struct{ events []zzEvent }
@@ -117,7 +119,10 @@ func (p *zzParser) ParseOperatorAdded(l ethtypes.Log) (*contract.ContractOperato
 	return p.ev(l).oa, nil
 }
 func (p *zzParser) ParseOperatorRemoved(l ethtypes.Log) (*contract.ContractOperatorRemoved, error) {
-	return nil, errors.New("zz: not generated")
+	if p.ev(l).or == nil {
+		return nil, errors.New("zz: not generated")
+	}
+	return p.ev(l).or, nil
 }
 func (p *zzParser) ParseValidatorAdded(l ethtypes.Log) (*contract.ContractValidatorAdded, error) {
 	return p.ev(l).va, nil
@@ -135,7 +140,10 @@ func (p *zzParser) ParseFeeRecipientAddressUpdated(l ethtypes.Log) (*contract.Co
 	return p.ev(l).fr, nil
 }
 func (p *zzParser) ParseValidatorExited(l ethtypes.Log) (*contract.ContractValidatorExited, error) {
-	return nil, errors.New("zz: not generated")
+	if p.ev(l).ve == nil {
+		return nil, errors.New("zz: not generated")
+	}
+	return p.ev(l).ve, nil
 }
 
 // ------------------------------------------------------------------ redirect targets
@@ -388,6 +396,27 @@ func zzGenEvent(p *zzParser, ref *zzRef, kindsAllowed int) ethtypes.Log {
 		ev.cr = &contract.ContractClusterReactivated{Owner: owner, OperatorIds: zzIDLists[zzChoose("clusterids", 2)]}
 	case 5: // unknown event
 		topicKind = 0x77
+	case 6: // OperatorAdded: an id already registered, or a new one (9); with a fresh key or with the own operator's key
+		topicKind = 0
+		id := uint64(3)
+		if zzNondetBool("newOperator") {
+			id = 9
+		}
+		pk := []byte{'o', 'p', 'k', 'e', 'y', byte('0' + id)}
+		if zzNondetBool("ownOperatorKey") {
+			pk = []byte{'o', 'p', 'k', 'e', 'y', byte('0' + zzOwnID)}
+		}
+		ev.oa = &contract.ContractOperatorAdded{OperatorId: id, Owner: owner, PublicKey: pk}
+	case 7: // OperatorRemoved (of a registered or an unknown operator): operators are never deleted
+		topicKind = 1
+		id := uint64(3)
+		if zzNondetBool("unknownOperator") {
+			id = 9
+		}
+		ev.or = &contract.ContractOperatorRemoved{OperatorId: id}
+	case 8: // ValidatorExited: no registry state changes
+		topicKind = 7
+		ev.ve = &contract.ContractValidatorExited{Owner: owner, OperatorIds: zzIDLists[0], PublicKey: zzValidatorPK(vi)}
 	}
 	ev.kind = kind
 	p.events = append(p.events, ev)
@@ -469,6 +498,13 @@ func (r *zzRef) apply(ev *zzEvent) {
 		if s.mine {
 			delete(r.accounts, zzHex(zzSharePK(zzOwnID, int(e.PublicKey[0])-0x70)))
 		}
+	case 6:
+		e := ev.oa
+		own := []byte{'o', 'p', 'k', 'e', 'y', byte('0' + zzOwnID)}
+		if string(e.PublicKey) == string(own) && e.OperatorId != zzOwnID {
+			return // the own operator's key under another id: malformed
+		}
+		r.operators[e.OperatorId] = true // (an existing id keeps its data)
 	case 2:
 		e := ev.fr
 		r.hasRecord[e.Owner] = true
@@ -523,6 +559,16 @@ func zzCompare(nd *zzNode, ref *zzRef, label string) {
 		if found && rd != nil && ref.hasRecord[owner] {
 			want := ref.recipient[owner]
 			zzAssert(ethcommon.Address(rd.FeeRecipient) == want, label+"-fee-recipient")
+		}
+	}
+	for _, id := range []uint64{3, 9} {
+		od, found, err := nd.store.GetOperatorData(nil, id)
+		zzAssert(err == nil && found == ref.operators[id], label+"-operator-presence")
+		if found && od != nil {
+			zzAssert(od.ID == id, label+"-operator-id")
+			if id == 3 {
+				zzAssert(string(od.PublicKey) == "opkey3" && od.OwnerAddress == zzOwnerA, label+"-registered-operator-keeps-its-data")
+			}
 		}
 	}
 	lb, found, err := nd.store.GetLastProcessedBlock(nil)
